@@ -18,6 +18,10 @@ claimed = {
          "Decides that revert is the structural inverse of store at bucket granularity for both state backends (every bucket Put by the Store closure is Deleted/range-deleted by the RevertHead closure inside the same batch), that the reverse diff can be built for every entry (sentinel rule), that Revert authenticates the root before mutating and before persisting, and that the in-memory running filter is only written by its forward/inverse steps. It does not decide value-level observational equality or fork convergence.",
          "trusted: go/types, go/ssa, VTA; key→bucket resolution follows db.Bucket.Key, typed buckets, nodeKeyByPath, legacy trie prefixes; unresolved Put keys fail the rule",
          "DESIGN.md §5 C04"),
+ "C16": ("guarded-unsigned-subtraction analysis (dominating facts, max/min/modulo/alignment idioms, monotone counters, caller preconditions) on SSA; CFG must-pass-through for floor publication; resolved bucket effects for who-deletes and the read/delete disjointness of the multi-commit prune phase",
+         "Decides that no floor computation in pruner/ or the history-prune migrator can wrap, that the retention floor is published (monotonically, by CAS) before anything is deleted and with the same bound, that prune bounds are head−retained under the L1 guards with the time floor only lowering them, that the header/hash→number carve-outs are kept, that only revert/pruner/migrations delete block and history buckets, and that the resumable prune phase never deletes what it or the resume probe reads. It does not decide data integrity under arbitrary interleavings or min-age timing.",
+         "trusted: go/types, go/ssa, VTA; term equality is used for repeated loads of the same field (assumes no intervening mutation); reviewed per-site exceptions are listed with reasons in engine/c16.go",
+         "DESIGN.md §5 C16"),
 }
 pending = {}  # id -> reason (properties not claimed)
 props = [json.loads(l) for l in open(os.path.join(V, "properties.jsonl"))]
